@@ -615,7 +615,9 @@ func judges(c *GenCtx, ops []Op, model map[int]string) []Diff {
 	case "C07":
 		return judgeConcurrent(c)
 	case "C08":
-		return judgeStatic(c, ops)
+		return append(judgeStatic(c, ops), judgeForeignConv()...)
+	case "C03":
+		return judgeForeignConv()
 	case "C09":
 		return judgeCost(c, ops)
 	case "C13":
